@@ -159,8 +159,6 @@ def accepted_rejection(op, zd, exc):
 def run(ctx):
     pb = core.setup_imports()
     _PB["pb"] = pb
-    import dask
-    import dask.array as da
     tape = ctx.tape
     SENT["n"] = 0
     REG.clear()
@@ -180,7 +178,71 @@ def run(ctx):
         ctx.probe("time_chunked_input")
     if nblocks > 1:
         ctx.probe("multi_chunk_input")
+    return _pipeline(ctx, pb, zn, zd, owners, style, case, nblocks, None)
 
+
+def run_readers(ctx):
+    """Reader-sourced graphs: two readers (often siblings: same class and geometry,
+    different content) read lazily; the eager reads are the NumPy twins. Building the
+    graph must not open any file."""
+    from . import files, iosim
+    pb = core.setup_imports()
+    _PB["pb"] = pb
+    tape = ctx.tape
+    SENT["n"] = 0
+    REG.clear()
+    files.workdir()
+    kinds = ["dada_complex", "guppi", "dada_stokes", "dada_multi", "vdif_complex", "dada_real",
+             "vdif_real"]
+    fs1 = files.gen_file_spec(tape, label="f0", kinds=kinds)
+    if tape.chance(2, 3, "sibling"):
+        fs2 = dict(fs1, seed=(fs1["seed"] + 1 + tape.draw(5, "sibling.seed")) % 4096)
+        ctx.probe("sibling_readers_same_geometry")
+    else:
+        fs2 = files.gen_file_spec(tape, label="f1", kinds=kinds)
+    rs1, rs2 = files.reader_spec(fs1), files.reader_spec(fs2)
+    io = iosim.IOSim(ctx, None, 0)
+
+    def on_open():
+        SENT["n"] += 1
+
+    io.on_open = on_open
+    with iosim.installed(pb, io):
+        r1, r2 = files.open_reader(pb, rs1), files.open_reader(pb, rs2)
+        L = min(len(r1), len(r2))
+        o = tape.draw(L + 1, "o")
+        n = 1 + tape.draw(max(min(L - o, 48), 1), "n") if L - o > 0 else 0
+        if n == 0:
+            o, n = 0, min(L, 8)
+        kw = {}
+        if tape.chance(1, 3, "chunks") and n > 1:
+            kw["chunks"] = (n,) + tuple(max(1, s // 2) for s in r1.sample_shape)
+        zn, bn = r1.read(o, n), r2.read(o, n)
+        SENT["n"] = 0
+        trip = []
+        with tripwire(trip):
+            zd, bd = r1.dask_read(o, n, **kw), r2.dask_read(o, n)
+        if SENT["n"] or trip:
+            ctx.violate("not-lazy", "dask_read:source-computed",
+                        f"dask_read opened a file {SENT['n']}x / invoked the default scheduler "
+                        f"{len(trip)}x while the graph was being built")
+        case = {"readers": [rs1, rs2], "offset": o, "n": n, "dask_read_kwargs": {k: list(v) for k, v in kw.items()},
+                "source": "readers", "pipeline": []}
+        ctx.sample = case
+        ctx.log("case", rs1, rs2, o, n, kw)
+        other = ("dask_read", bn, bd)
+        if type(zn) is type(bn) and zn.shape == bn.shape and tape.chance(1, 2, "combine"):
+            zn, zd = zn - bn, zd - bd
+            case["pipeline"].append({"op": "subtract_other_reader"})
+            ctx.probe("two_reader_graphs_combined")
+        return _pipeline(ctx, pb, zn, zd, None, "readers", case,
+                         int(np.prod(zd.data.numblocks)), other)
+
+
+def _pipeline(ctx, pb, zn, zd, owners, style, case, nblocks, other):
+    import dask
+    import dask.array as da
+    tape = ctx.tape
     npipe = 1 + tape.weighted([3, 3, 2, 1], "npipe")
     cur_n, cur_d = zn, zd
     stages = []            # (name, rn, rd) signal results kept for multi-output compute
@@ -334,8 +396,10 @@ def run(ctx):
     own0 = [o.tobytes() for o in (owners or [])]
 
     # optional second output (an earlier stage) for a multi-output compute
-    extra = None
-    if len(stages) >= 2 and tape.chance(1, 3, "multi"):
+    extra = other
+    if other is not None:
+        ctx.probe("multi_output_compute")
+    elif len(stages) >= 2 and tape.chance(1, 3, "multi"):
         extra = stages[tape.draw(len(stages) - 1, "multi.which")]
         ctx.probe("multi_output_compute")
 
@@ -355,6 +419,19 @@ def run(ctx):
             out = ("abort", e)
         except SimOSError as e:
             out = ("oserror", e)
+        except Exception as e:
+            # accepted at build time, NumPy twin succeeded, but the graph cannot be computed
+            site = lastop
+            for sname, srn, srd in stages:
+                if isinstance(srd.data, da.Array):
+                    try:
+                        srd.data.compute(scheduler="synchronous")
+                    except Exception:
+                        site = sname
+                        break
+            ctx.violate("dask-numpy-mismatch", f"{site}:compute-raises",
+                        f"the NumPy twin succeeded and the graph was built, but computing it under "
+                        f"{plan.describe()} raised {type(e).__name__}: {e}")
         ctx.counts["tasks_executed"] += sim.completed
         ctx.counts["computes"] += 1
         if sim.max_inflight > 1:
